@@ -377,6 +377,92 @@ pub fn e2_spec(id: &str, tier: &str) -> Option<crate::e2::E2Spec> {
                 assumptions: e2_assumptions(),
             })
         }
+        "C08" => {
+            let mut scens = Vec::new();
+            for ty in [1u8, 0] {
+                let p = progs::intern_canon_prog(ty);
+                // one priming revision for the collecting type so that the reuse path races too
+                let setup = if ty == 1 { vec![Op::Q(2), Op::Set(0, 1), Op::Set(1, 1), Op::Q(0), Op::Set(0, 0)] } else { vec![] };
+                let asg: Vec<Vec<Vec<Op>>> = vec![
+                    vec![vec![Op::QInt(ty, 0), Op::QInt(ty, 1)], vec![Op::QInt(ty, 1), Op::QInt(ty, 0)]],
+                    vec![vec![Op::Q(0), Op::QInt(ty, 2)], vec![Op::Q(1), Op::QInt(ty, 0)]],
+                    vec![vec![Op::Q(2)], vec![Op::QInt(ty, 0), Op::Q(1)]],
+                ];
+                for (ai, th) in asg.into_iter().enumerate() {
+                    scens.push(Scen {
+                        name: format!("{}-2t-a{}", p.name, ai),
+                        prog: p.clone(),
+                        setup: setup.clone(),
+                        threads: th,
+                        phase2_writes: vec![Op::Set(0, 2)],
+                        phase2: !quick,
+                        bound: if quick { 2 } else { 3 },
+                        oracle: Oracle::Intern,
+                    });
+                }
+                scens.push(Scen {
+                    name: format!("{}-3t", p.name),
+                    prog: p.clone(),
+                    setup: setup.clone(),
+                    threads: vec![vec![Op::QInt(ty, 0)], vec![Op::Q(0)], vec![Op::QInt(ty, 1), Op::QInt(ty, 0)]],
+                    phase2_writes: vec![],
+                    phase2: false,
+                    bound: if quick { 1 } else { 2 },
+                    oracle: Oracle::Intern,
+                });
+            }
+            Some(E2Spec { id: "C08", scens, cap_s: cap, rule: RULE_E2, assumptions: e2_assumptions() })
+        }
+        "C14" => {
+            let mut scens = Vec::new();
+            for p in progs::plain_cycle_set() {
+                let pure = p.name == "pc-pure" || p.name == "pc-self";
+                let entries: Vec<Vec<Vec<Op>>> = if p.name == "pc-three-mixed" {
+                    vec![vec![vec![q(0)], vec![q(1)]], vec![vec![q(1)], vec![q(2)]]]
+                } else {
+                    vec![vec![vec![q(0)], vec![q(1)]], vec![vec![q(1)], vec![q(1)]], vec![vec![q(0), q(2)], vec![q(1)]]]
+                };
+                for (ai, th) in entries.into_iter().enumerate() {
+                    scens.push(Scen {
+                        name: format!("{}-2t-a{}", p.name, ai),
+                        prog: p.clone(),
+                        setup: vec![],
+                        threads: th,
+                        // the write breaks the cycle; afterwards every request must equal the reference
+                        phase2_writes: vec![Op::Set(0, 0)],
+                        phase2: true,
+                        bound: if quick { 1 } else { 2 },
+                        oracle: Oracle::PlainCycle(pure),
+                    });
+                }
+                if !quick || p.name == "pc-mixed" {
+                    scens.push(Scen {
+                        name: format!("{}-3t", p.name),
+                        prog: p.clone(),
+                        setup: vec![],
+                        threads: vec![vec![q(0)], vec![q(1)], vec![q(1), q(2)]],
+                        phase2_writes: vec![Op::Set(0, 0)],
+                        phase2: true,
+                        bound: if quick { 0 } else { 1 },
+                        oracle: Oracle::PlainCycle(pure),
+                    });
+                }
+            }
+            if quick {
+                let p = progs::plain_cycle_set().remove(1);
+                scens.push(Scen {
+                    name: format!("{}-2t-k2", p.name),
+                    prog: p,
+                    setup: vec![],
+                    threads: vec![vec![q(0)], vec![q(1)]],
+                    phase2_writes: vec![],
+                    phase2: false,
+                    bound: 2,
+                    oracle: Oracle::PlainCycle(false),
+                });
+            }
+            Some(E2Spec { id: "C14", scens, cap_s: cap, rule: RULE_E2, assumptions: e2_assumptions() })
+        }
         "C18" => {
             let mut scens = Vec::new();
             for kind in [Kind::Fx, Kind::Fxj, Kind::Fb] {
